@@ -401,7 +401,9 @@ reg(r'<std::boxed::Box<.*> as std::ops::Deref(Mut)?>::deref(_mut)?', lambda it, 
 reg(r'std::sync::Arc::<.*>::new', lambda it, v: BoxPtr(Box_(v)))
 reg(r'<std::sync::Arc<.*> as std::ops::Deref>::deref', lambda it, a: box_ref(a))
 reg(r'<std::sync::Arc<.*> as std::clone::Clone>::clone', lambda it, a: deref_all(a))
-reg(r'std::sync::RwLock::<.*>::new', lambda it, v: v)
+reg(r'std::sync::(RwLock|Mutex)::<.*>::new', lambda it, v: v)
+reg(r'std::sync::Mutex::<.*>::lock', lambda it, l: OK(l))
+reg(r'<std::sync::MutexGuard<.*> as std::ops::Deref(Mut)?>::deref(_mut)?', lambda it, g: g.get() if isinstance(g.get(), Ref) else g)
 reg(r'std::sync::RwLock::<.*>::(read|write)', lambda it, l: OK(l))
 reg(r'<std::sync::RwLock(Read|Write)Guard<.*> as std::ops::Deref(Mut)?>::deref(_mut)?', lambda it, g: g.get() if isinstance(g.get(), Ref) else g)
 @model(r'std::mem::replace::<.*>')
@@ -852,6 +854,17 @@ def m_slice_get(it, sl, idx):
 reg(r'core::slice::<impl \[.*\]>::(iter|iter_mut)', lambda it, sl: PyIter(elem_refs(sl)))
 reg(r'core::slice::<impl \[.*\]>::(first|first_mut)', lambda it, sl: SOME(elem_refs(sl)[0]) if deref_all(sl) else NONE())
 reg(r'core::slice::<impl \[.*\]>::(last|last_mut)', lambda it, sl: SOME(elem_refs(sl)[-1]) if deref_all(sl) else NONE())
+@model(r'core::slice::<impl \[.*\]>::(chunks_exact|chunks_exact_mut|chunks_mut)', True)
+def m_chunks_exact(it, callee, sl, n):
+    if not isinstance(n, int) or n == 0: raise Unsupported('chunk size')
+    r = root_ref(sl) if isinstance(sl, Ref) else Ref(Box_(sl)); total = len(r.get())
+    end = total - total % n if 'exact' in callee else total
+    return PyIter([Ref(Box_(SliceView(r, a, min(a + n, total)))) for a in range(0, end, n)])
+@model(r'core::slice::<impl \[.*\]>::chunks')
+def m_chunks(it, sl, n):
+    if not isinstance(n, int) or n == 0: raise Panic('chunk size must be non-zero') if n == 0 else Unsupported('symbolic chunk size')
+    r = root_ref(sl) if isinstance(sl, Ref) else Ref(Box_(sl)); total = len(r.get())
+    return PyIter([Ref(Box_(SliceView(r, a, min(a + n, total)))) for a in range(0, total, n)])
 @model(r'core::slice::<impl \[.*\]>::contains')
 def m_slice_contains(it, sl, x):
     xv = deref_all(x)
